@@ -139,8 +139,10 @@ func (c *oCache) Get(ctx context.Context, id string) (value Object, err error) {
 		retries int
 	)
 	for {
+		verifGate("gate:get.lock", id)
 		c.mu.Lock()
 		if c.closed {
+			verifGate("get.closed", id)
 			c.mu.Unlock()
 			return nil, ErrClosed
 		}
@@ -152,6 +154,7 @@ func (c *oCache) Get(ctx context.Context, id string) (value Object, err error) {
 			c.data[id] = e
 		}
 		e.lastUsage = time.Now()
+		verifGateE(verifPick(load, "get.miss", "get.hit"), e)
 		c.mu.Unlock()
 		reload, err := e.waitClose(ctx, id)
 		if err != nil {
@@ -192,12 +195,15 @@ func (c *oCache) Get(ctx context.Context, id string) (value Object, err error) {
 }
 
 func (c *oCache) Pick(ctx context.Context, id string) (value Object, err error) {
+	verifGate("gate:pick.lock", id)
 	c.mu.Lock()
 	val, ok := c.data[id]
 	if !ok || val.isClosing() {
+		verifGate("pick.miss", id)
 		c.mu.Unlock()
 		return nil, ErrNotExists
 	}
+	verifGateE("pick.found", val)
 	c.mu.Unlock()
 	c.metricsGet(true)
 	return val.waitLoad(ctx, id)
@@ -205,6 +211,7 @@ func (c *oCache) Pick(ctx context.Context, id string) (value Object, err error) 
 
 func (c *oCache) load(ctx context.Context, id string, e *entry) {
 	defer close(e.load)
+	defer verifGateE("gate:load.close", e)
 	ctx, cancel := context.WithCancel(ctx)
 	e.setCancel(cancel)
 	value, err := c.loadFunc(ctx, id)
@@ -214,6 +221,7 @@ func (c *oCache) load(ctx context.Context, id string, e *entry) {
 	aborted := ctx.Err() != nil
 	cancel()
 
+	verifGate("gate:load.lock", id)
 	c.mu.Lock()
 	defer c.mu.Unlock()
 	if value == nil && err == nil {
@@ -223,6 +231,7 @@ func (c *oCache) load(ctx context.Context, id string, e *entry) {
 		e.loadErr = err
 		e.loadAborted = aborted
 		delete(c.data, id)
+		verifGateE(verifPick(aborted, "load.fail.aborted", "load.fail"), e)
 	} else {
 		e.value = value
 		e.setActive(false)
@@ -230,17 +239,21 @@ func (c *oCache) load(ctx context.Context, id string, e *entry) {
 }
 
 func (c *oCache) Remove(ctx context.Context, id string) (ok bool, err error) {
+	verifGate("gate:remove.lock", id)
 	c.mu.Lock()
 	if c.closed {
+		verifGate("remove.closed", id)
 		c.mu.Unlock()
 		err = ErrClosed
 		return
 	}
 	e, ok := c.data[id]
 	if !ok {
+		verifGate("remove.absent", id)
 		c.mu.Unlock()
 		return false, ErrNotExists
 	}
+	verifGateE("remove.found", e)
 	c.mu.Unlock()
 	return c.remove(ctx, e)
 }
@@ -249,6 +262,7 @@ func (c *oCache) Remove(ctx context.Context, id string) (ok bool, err error) {
 // guarantees c.mu is released even if setClosed panics, so a panic in the
 // close path can never leave the whole cache wedged (GO-7332 hardening).
 func (c *oCache) closeAndDelete(e *entry) {
+	verifGate("gate:closeanddelete.lock", e.id)
 	c.mu.Lock()
 	defer c.mu.Unlock()
 	e.setClosed()
@@ -278,8 +292,10 @@ func (c *oCache) removeCtx(loadCtx, closingCtx context.Context, e *entry) (ok bo
 }
 
 func (c *oCache) RemoveSame(ctx context.Context, id string, value Object) (ok bool, err error) {
+	verifGate("gate:removesame.lock", id)
 	c.mu.Lock()
 	if c.closed {
+		verifGate("removesame.closed", id)
 		c.mu.Unlock()
 		return false, ErrClosed
 	}
@@ -290,6 +306,7 @@ func (c *oCache) RemoveSame(ctx context.Context, id string, value Object) (ok bo
 	// replaced under the same id it is in a closed state and remove() is a
 	// no-op, so a stale caller can never close the newer value that took the id.
 	same := exists && e.value == value
+	verifGate(verifPick(same, "removesame.same", "removesame.other"), id)
 	c.mu.Unlock()
 	if !same {
 		return false, ErrNotExists
@@ -298,19 +315,23 @@ func (c *oCache) RemoveSame(ctx context.Context, id string, value Object) (ok bo
 }
 
 func (c *oCache) TryRemove(id string) (ok bool, err error) {
+	verifGate("gate:tryremove.lock", id)
 	c.mu.Lock()
 
 	if c.closed {
+		verifGate("tryremove.closed", id)
 		c.mu.Unlock()
 		return false, ErrClosed
 	}
 
 	e, contains := c.data[id]
 	if !contains {
+		verifGate("tryremove.absent", id)
 		c.mu.Unlock()
 		return false, ErrNotExists
 	}
 
+	verifGateE("tryremove.found", e)
 	c.mu.Unlock()
 
 	prevState, _, _ := e.setClosing(context.Background(), false)
@@ -325,6 +346,7 @@ func (c *oCache) TryRemove(id string) (ok bool, err error) {
 	}
 
 	if !closed {
+		verifGate("gate:setactive.lock", e.id)
 		e.setActive(true)
 		return false, nil
 	}
@@ -346,14 +368,17 @@ func (c *oCache) DoLockedIfNotExists(id string, action func() error) error {
 }
 
 func (c *oCache) Add(id string, value Object) (err error) {
+	verifGate("gate:add.lock", id)
 	c.mu.Lock()
 	defer c.mu.Unlock()
 	if _, ok := c.data[id]; ok {
+		verifGate("add.exists", id)
 		return ErrExists
 	}
 	e := newEntry(id, value, entryStateActive)
 	close(e.load)
 	c.data[id] = e
+	verifGateE("add.ok", e)
 	return
 }
 
@@ -391,8 +416,10 @@ func (c *oCache) ticker() {
 }
 
 func (c *oCache) GC() {
+	verifGate("gate:gc.lock", "")
 	c.mu.Lock()
 	if c.closed {
+		verifGate("gc.closed", "")
 		c.mu.Unlock()
 		return
 	}
@@ -401,9 +428,11 @@ func (c *oCache) GC() {
 	for _, e := range c.data {
 		if e.isActive() && e.lastUsage.Before(deadline) {
 			toClose = append(toClose, e)
+			verifGateE("gc.victim", e)
 		}
 	}
 	size := len(c.data)
+	verifGate("gc.scanned", "")
 	c.mu.Unlock()
 	closedNum := 0
 	for _, e := range toClose {
@@ -416,6 +445,7 @@ func (c *oCache) GC() {
 			c.log.With("object_id", e.id).Warnf("GC: object close error: %v", err)
 		}
 		if !closed {
+			verifGate("gate:setactive.lock", e.id)
 			e.setActive(true)
 			continue
 		} else {
@@ -433,8 +463,10 @@ func (c *oCache) Len() int {
 }
 
 func (c *oCache) Close() (err error) {
+	verifGate("gate:close.lock", "")
 	c.mu.Lock()
 	if c.closed {
+		verifGate("close.closed", "")
 		c.mu.Unlock()
 		return ErrClosed
 	}
@@ -444,7 +476,9 @@ func (c *oCache) Close() (err error) {
 	for _, e := range c.data {
 		e.cancelLoad()
 		toClose = append(toClose, e)
+		verifGateE("close.collect", e)
 	}
+	verifGate("close.marked", "")
 	c.mu.Unlock()
 	// one deadline for the whole pass, spent only on entries another closer holds:
 	// that closer can be a gc stuck in TryClose on an unresponsive peer. Loads are
